@@ -1,12 +1,106 @@
 /- Driver operations of contributor `Parse` (translated-code ties): run GENERATED functions so the harness can compare them with the real code.
-   Wired into the cluster drivers by a fall-through; return `none` for names that are not yours. -/
+   Wired into the cluster drivers by a fall-through; return `none` for names that are not yours.
+
+   `gen_create_table`  GenP._create_table (Gen/ParseLoop.lean) on one input form: the statements handed to the cursor and `_nModel`
+   `gen_read_pdb`      GenP.read_pdb: the list of lines
+   `gen_fix_chainID`   GenP._fix_chainID on a database of the table model: the returned `update_column` call and the database after it
+   `gen_clean`         the table-name clean-up loop alone
+   `gen_init`          GenP.init (`__init__`): method calls and cursor statements in order
+   `gen_call`          GenP.call (`__call__`) with the table names and the exported lines as parameters -/
 import PdbVerif.Driver.Json
+import PdbVerif.Driver.BJson
+import PdbVerif.Gen.ParseLoop
+import PdbVerif.Model.Parse
 
 namespace Driver.ExtParse
-open Lean Driver
+open Lean Driver Py
+
+def valJ : Val → Json
+  | .int i => .arr #[.str "i", intJ i]
+  | .real r => .arr #[.str "r", ratJ r]
+  | .text s => .arr #[.str "t", strJ s]
+
+def rowsJ (rs : List (List Val)) : Json := .arr (rs.map (fun r => Json.arr (r.map valJ).toArray)).toArray
+
+def strList (a : Array Json) : Except String (List Str) :=
+  a.toList.mapM fun j => do let s ← asStr j; pure s.toList
+
+/-- {"path": "...", "kind": "file"|"dir"|"none", "content": "..."}: one name exists at most -/
+def fsOf (j : Json) : Except String GenP.Rt.FS := do
+  match j.getObjVal? "fs" with
+  | .ok f =>
+    let p ← jStr f "path"
+    let k ← jStr f "kind"
+    let c := match jStr f "content" with | .ok c => c | .error _ => ""
+    pure { pathExists := fun q => decide (q = p.toList) && (k == "file" || k == "dir"),
+           isfile := fun q => decide (q = p.toList) && k == "file",
+           readlines := fun q => if decide (q = p.toList) && k == "file" then .ok (Model.readlines c.toList) else .error .fileNotFound }
+  | _ => pure { pathExists := fun _ => false, isfile := fun _ => false, readlines := fun _ => .error .fileNotFound }
+
+def objOf (j : Json) : Except String GenP.Rt.Obj := do
+  let form ← jStr j "form"
+  match form with
+  | "str" => do let s ← jStr j "arg"; pure (.str s.toList)
+  | "bytes" => do let s ← jStr j "arg"; pure (.bytes s.toList)
+  | "path" => do let s ← jStr j "arg"; pure (.path s.toList)
+  | "listStr" => do let l ← strList (← jArr j "arg"); pure (.listStr l)
+  | "listBytes" => do let l ← strList (← jArr j "arg"); pure (.listBytes l)
+  | "ndarrayStr" => do let l ← strList (← jArr j "arg"); pure (.ndarrayStr l)
+  | "ndarrayBytes" => do let l ← strList (← jArr j "arg"); pure (.ndarrayBytes l)
+  | "listOther" => do let n ← jInt j "arg"; pure (.listOther n.toNat)
+  | "ndarrayOther" => do let n ← jInt j "arg"; pure (.ndarrayOther n.toNat)
+  | "other" => pure .other
+  | f => throw s!"unknown form {f}"
+
+def fxJ : GenP.Rt.Fx → Json
+  | .execute q => Json.mkObj [("execute", strJ q)]
+  | .executemany q rows => Json.mkObj [("executemany", strJ q), ("rows", rowsJ rows)]
+  | .method n => Json.mkObj [("method", .str n)]
+
+def merrJ (e : Model.Err) : Json := .str ("ERR:" ++ e.tag)
 
 def op (name : String) (j : Json) : Except String (Option Json) := do
   match name with
+  | "gen_create_table" =>
+    let fs ← fsOf j
+    let o ← objOf j
+    let tn := match jStr j "tablename" with | .ok t => t.toList | .error _ => GenP._create_table_tablename_default
+    pure (some (exceptJ (fun (r : List GenP.Rt.Fx × Int) => Json.mkObj [("fx", .arr (r.1.map fxJ).toArray), ("nModel", intJ r.2)])
+      (GenP._create_table fs o tn)))
+  | "gen_init" =>
+    let fs ← fsOf j
+    let o ← objOf j
+    let tn := match jStr j "tablename" with | .ok t => t.toList | .error _ => GenP.init_tablename_default
+    let fix := match jBool j "fix_chainID" with | .ok b => b | .error _ => GenP.init_fix_chainID_default
+    pure (some (exceptJ (fun (r : List GenP.Rt.Fx × Int) => Json.mkObj [("fx", .arr (r.1.map fxJ).toArray), ("nModel", intJ r.2)])
+      (GenP.init fs o tn fix)))
+  | "gen_call" =>
+    let fs ← fsOf j
+    let names ← strList (← jArr j "names")
+    -- what the real `sql2pdb(tablename=names[0], **kwargs)` returned (or raised) is handed over as the parameter
+    let sql2pdb : Str → Except Err (List Str) ← match j.getObjVal? "lines" with
+      | .ok (.arr a) => do let l ← strList a; pure (fun _ => Except.ok l)
+      | _ => pure (fun _ => Except.error (.unmodelled "sql2pdb raised"))
+    pure (some (exceptJ (fun (r : List GenP.Rt.Fx × Int) => Json.mkObj [("fx", .arr (r.1.map fxJ).toArray), ("nModel", intJ r.2)])
+      (GenP.call fs names sql2pdb)))
+  | "gen_read_pdb" =>
+    let fs ← fsOf j
+    let o ← objOf j
+    pure (some (exceptJ (fun (l : List Str) => Json.arr (l.map strJ).toArray) (GenP.read_pdb fs o)))
+  | "gen_clean" =>
+    let t ← jStr j "tablename"
+    let p ← jStr j "chars"
+    pure (some (exceptJ strJ (GenP._create_table_for_c t.toList (GenP.Rt.chars p.toList))))
+  | "gen_fix_chainID" =>
+    let db ← Driver.B.dbOfJson (← jVal j "db")
+    let r := GenP._fix_chainID db
+    let after := GenP.Rt.runMethod db r
+    let calls : Json := match r with
+      | .error e => merrJ e
+      | .ok fx => .arr (fx.map (fun f => match f with
+          | .update_column cn vals tn => Json.arr #[strJ cn, .arr (vals.map Driver.B.valJ).toArray, strJ tn])).toArray
+    pure (some (Json.mkObj [("calls", calls), ("db", Driver.B.dbJ after.1),
+                            ("result", match after.2 with | .ok _ => .str "ok" | .error e => merrJ e)]))
   | _ => pure none
 
 end Driver.ExtParse
